@@ -49,8 +49,17 @@ def check_model(ctx, fm, idx):
     Xt = np.array([[rng.randint(-12, 12) / 2 for _ in range(n)] for _ in range(k)])
     if rng.random() < 0.3:
         Xt = X.copy()
+    if rng.random() < 0.12:
+        # a long record whose length is not a round number, with the errors concentrated at its end (a score computed
+        # piecewise must weight the pieces by their length)
+        L = rng.choice([1025, 1030, 2049, 2500, 4097, 513, 257])
+        base_rows = np.array([[rng.randint(-4, 4) / 2 for _ in range(n)] for _ in range(3)])
+        Xt = base_rows[np.arange(L) % 3].copy()
+        Xt[-rng.randint(1, 5):] += np.array([[rng.randint(8, 40) for _ in range(n)]], dtype=float)
+        ctx.count("long_test_batch")
     S = ranking[:ns]
-    base = {"case": desc, "n_sensors": ns, "x_test": Xt.tolist(), "ranking": ranking, "index": idx}
+    base = {"case": desc, "n_sensors": ns, "x_test": (Xt.tolist() if len(Xt) <= 16 else {"rows": len(Xt), "first": Xt[:3].tolist(), "last": Xt[-5:].tolist()}),
+            "ranking": ranking, "index": idx}
     ctx.evaluations += 1
     # ---- score ---------------------------------------------------------------------------------
     try:
